@@ -4,6 +4,12 @@
 //	nd.ra     function mode: router advertisements built by the independent option builder are fed
 //	          through Session.Parse + Handler6.ProcessPacket of a fresh handler; the learned router
 //	          table must equal the Lean model's and the independent Go decoder's reading.
+//	nd.frame  function mode over RAW frames: generated frames (router advertisements with any hop limit /
+//	          source address class / Ethernet source, payload-length mismatch, extension headers, 802.1Q tags,
+//	          ICMPv6 carried by IPv4, other ICMPv6 types, truncation at every length, bit flips, random bytes)
+//	          go through the real Session.Parse, the PayloadID dispatch and Handler6.ProcessPacket of a fresh
+//	          handler; Parse result, returned error and router table vs the Lean composition
+//	          `Model.Icmp6Frame.processFrame`, and vs an independent Go reading of the frame.
 //	nd.trace  trace-acceptance mode: StartHunt/StopHunt/Close/RA sequences in real time on the real
 //	          handler; the ordered log (API call/return, NA frames written) must be accepted by the
 //	          Lean hunt machine and satisfy the Go-side oracle.  The recording connection can hold one
@@ -13,6 +19,7 @@ package c14
 
 import (
 	"encoding/binary"
+	"errors"
 	"encoding/hex"
 	"fmt"
 	"net"
@@ -783,8 +790,207 @@ func evalTrace(c *core.Ctx, line string) *core.Case {
 		Oracle: func() (string, string) { return traceOracle(evs, nas, ops, hostMAC) }}
 }
 
+// ---------------------------------------------------------------------------------------------
+// nd.frame – raw frames through Parse + dispatch + ProcessPacket
+
+func errClass(err error) string {
+	switch {
+	case err == nil:
+		return "nil"
+	case errors.Is(err, packet.ErrFrameLen):
+		return "ErrFrameLen"
+	case errors.Is(err, packet.ErrInvalidMAC):
+		return "ErrInvalidMAC"
+	case errors.Is(err, packet.ErrParseFrame):
+		return "ErrParseFrame"
+	}
+	return "other"
+}
+
+// refRaFrame: independent reading of the frame (RFC 8200 fixed header at absolute offsets, ICMPv6 type 134
+// directly after it, payload length filling the frame) and of the sender's place in the host table.
+func refRaFrame(p []byte) (tok raTok, isRA bool) {
+	if len(p) < 62 || p[6]&1 == 1 || p[12] != 0x86 || p[13] != 0xdd {
+		return
+	}
+	if (int(p[18])<<8|int(p[19]))+54 != len(p) || p[20] != 58 || p[54] != 134 {
+		return
+	}
+	src := netip.AddrFrom16(*(*[16]byte)(p[22:38]))
+	esrc := p[6:12]
+	tracked := string(esrc) != string(sess.HostMAC) &&
+		(src.IsLinkLocalUnicast() || (src.IsGlobalUnicast() && string(esrc) != string(sess.RouterMAC)))
+	return raTok{h: tracked, eth: append([]byte{}, esrc...), ip: append([]byte{}, p[22:38]...), payload: append([]byte{}, p[54:]...)}, true
+}
+
+func evalFrame(c *core.Ctx, line string) *core.Case {
+	f := strings.Fields(line)
+	if len(f) != 7 {
+		return nil
+	}
+	rep, err := strconv.Atoi(f[5])
+	if err != nil {
+		return nil
+	}
+	p := core.UnHex(f[6])
+	raMu.Lock()
+	defer raMu.Unlock()
+	var h *icmp_spoofer.Handler6
+	table, ret := "", "-"
+	impl := "panic"
+	ndpgen.Quietly(func() {
+		impl = core.Safely(func() string {
+			var s *packet.Session
+			s, h, _ = newHandler()
+			icmp_spoofer.VerifSetRepeat(rep)
+			buf := append([]byte{}, p...) // the receive buffer: processed in place, overwritten afterwards
+			fr, perr := s.Parse(buf)
+			// the dispatch of the library's packet loop: an error drops the frame, PayloadICMP6 goes to the ICMPv6 handler
+			if perr == nil && fr.PayloadID == packet.PayloadICMP6 {
+				ret = errClass(h.ProcessPacket(fr))
+			}
+			poison(buf)
+			rt, def := routersCanon(h)
+			table = fmt.Sprintf("def=%s routers=%s", def, rt)
+			pe := 0
+			if perr != nil {
+				pe = 1
+			}
+			return fmt.Sprintf("perr=%d pid=%d ret=%s %s", pe, int(fr.PayloadID), ret, table)
+		})
+	})
+	if h != nil && impl != "panic" {
+		h.Close()
+	}
+	return &core.Case{Line: line, Impl: impl, Trivial: len(p) < 62,
+		Cmp: func(a, b string) bool {
+			return ndpgen.SameModuloPuny(strings.ReplaceAll(a, "|", " "), strings.ReplaceAll(strings.SplitN(b, " | ", 2)[0], "|", " "))
+		},
+		Oracle: func() (string, string) {
+			if impl == "panic" {
+				return "Parse / Handler6.ProcessPacket panicked on a raw frame", ""
+			}
+			tok, isRA := refRaFrame(p)
+			if !isRA {
+				if table != "def=- routers=-" {
+					return "a frame that is not a router advertisement changed the router table: " + table, ""
+				}
+				return "", ""
+			}
+			tok.rep = rep
+			res := "1"
+			if ret != "nil" {
+				res = "0"
+			}
+			return raOracle([]raTok{tok}, "res="+res+" "+table)
+		}}
+}
+
+// genFrames: raw frames for the function mode.
+func genFrames(c *core.Ctx) []string {
+	r := c.Rnd
+	lan := []byte{192, 168, 0, 0}
+	prefix := fmt.Sprintf("nd.frame %s %s %s 24", hx(sess.HostMAC), hx(sess.RouterMAC), hx(lan))
+	var lines []string
+	emit := func(rep int, frame []byte) {
+		lines = append(lines, fmt.Sprintf("%s %d %s", prefix, rep, hx(frame)))
+	}
+	srcs := []netip.Addr{routerIP(1), routerIP(2), netip.MustParseAddr("2001:db8::99"), netip.MustParseAddr("::"),
+		netip.MustParseAddr("ff02::1"), netip.MustParseAddr("::1"), netip.MustParseAddr("fec0::1"), netip.MustParseAddr("::ffff:192.168.0.9")}
+	mk := func() (int, []byte) {
+		opts := ndpgen.RandOptions(r, 4)
+		if r.Intn(5) == 0 {
+			opts = ndpgen.Mutate(r, opts)
+		}
+		ra := ndpgen.RA(byte(r.Intn(256)), byte(r.Intn(256)), uint16(r.Intn(65536)), r.Uint32(), r.Uint32(), opts)
+		src := srcs[0]
+		if r.Intn(3) == 0 {
+			src = srcs[r.Intn(len(srcs))]
+		}
+		esrc := routerMAC(1)
+		switch r.Intn(8) {
+		case 0:
+			esrc = sess.RouterMAC
+		case 1:
+			esrc = sess.HostMAC
+		}
+		fr := frame6(esrc, src, allNodes, ra)
+		if r.Intn(2) == 0 {
+			fr[21] = byte(r.Intn(256)) // hop limit is not checked
+		}
+		rep := -1
+		if r.Intn(5) == 0 {
+			rep = r.Intn(6) - 2
+		}
+		return rep, fr
+	}
+	n := c.Scale(2500, 60000)
+	for i := 0; i < n; i++ {
+		rep, fr := mk()
+		switch r.Intn(16) {
+		case 0: // truncation at every length
+			fr = fr[:r.Intn(len(fr)+1)]
+		case 1: // trailing bytes / payload length mismatch
+			if r.Intn(2) == 0 {
+				fr = append(fr, make([]byte, 1+r.Intn(4))...)
+			} else {
+				fr[19] ^= byte(1 + r.Intn(7))
+			}
+		case 2: // 802.1Q / 802.1ad tag
+			tag := [][]byte{{0x81, 0x00, 0x00, 0x05}, {0x88, 0xa8, 0x00, 0x05, 0x81, 0x00, 0x00, 0x06}}[r.Intn(2)]
+			fr = append(append(append([]byte{}, fr[:12]...), tag...), fr[12:]...)
+		case 3: // group bit in the Ethernet source
+			fr[6] |= 1
+		case 4: // hop-by-hop extension header in front of the ICMPv6 message
+			ext := []byte{58, 0, 1, 4, 0, 0, 0, 0}
+			icmp := append([]byte{}, fr[54:]...)
+			fr = append(append(append([]byte{}, fr[:54]...), ext...), icmp...)
+			fr[20] = 0
+			binary.BigEndian.PutUint16(fr[18:20], uint16(len(fr)-54))
+		case 5: // other next header
+			fr[20] = []byte{17, 6, 1, 59, 0, 43, 44}[r.Intn(7)]
+		case 6: // other ICMPv6 type
+			fr[54] = []byte{133, 135, 136, 137, 128, 129, 130, 131, 143, 1, 2, 3, 200}[r.Intn(13)]
+		case 7: // ICMPv6 carried by IPv4 (protocol 58): there is no IPv6 header
+			icmp := append([]byte{}, fr[54:]...)
+			ip4 := []byte{0x45, 0, 0, 0, 0, 0, 0, 0, 64, 58, 0, 0, 192, 168, 0, 9, 192, 168, 0, 129}
+			binary.BigEndian.PutUint16(ip4[2:4], uint16(20+len(icmp)))
+			fr = append(append(append([]byte{}, fr[:12]...), 0x08, 0x00), append(ip4, icmp...)...)
+			if r.Intn(2) == 0 {
+				fr[14+20] = []byte{135, 134, 200, 136}[r.Intn(4)]
+			}
+		case 8: // short ICMPv6 message: 0..15 bytes
+			k := r.Intn(16)
+			fr = fr[:54+k]
+			binary.BigEndian.PutUint16(fr[18:20], uint16(k))
+		case 9: // bit flip anywhere
+			fr[r.Intn(len(fr))] ^= byte(1 << uint(r.Intn(8)))
+		case 10: // other EtherType
+			et := []uint16{0x0800, 0x0806, 0x86de, 0x05dc, 0x88cc}[r.Intn(5)]
+			fr[12], fr[13] = byte(et>>8), byte(et)
+		case 11: // random bytes
+			fr = c.RandBytes(r.Intn(120))
+		}
+		emit(rep, fr)
+	}
+	// truncation of one well-formed advertisement at every length
+	base := frame6(routerMAC(1), routerIP(1), allNodes, ndpgen.RA(64, 0x40, 1800, 0, 0, ndpgen.Join(ndpgen.LLA(1, routerMAC(1)), ndpgen.MTU(1500))))
+	for k := 0; k <= len(base); k++ {
+		fr := append([]byte{}, base[:k]...)
+		emit(-1, fr)
+		if k >= 54 { // … and with the payload length field following the truncation
+			g := append([]byte{}, fr...)
+			binary.BigEndian.PutUint16(g[18:20], uint16(k-54))
+			emit(-1, g)
+		}
+	}
+	return lines
+}
+
 func Eval(c *core.Ctx, line string) *core.Case {
 	switch {
+	case strings.HasPrefix(line, "nd.frame "):
+		return evalFrame(c, line)
 	case strings.HasPrefix(line, "nd.ra "):
 		return evalRa(c, line)
 	case strings.HasPrefix(line, "nd.trace "):
@@ -843,7 +1049,7 @@ func genScenario(c *core.Ctx) string {
 
 // Gen is the C14 correspondence run.
 func Gen(c *core.Ctx) {
-	c.Res.Rule = "nd.ra: sequences of 1–3 router advertisements (random fixed part, option lists from the independent builder: prefix, MTU, RDNSS, DNSSL, route information, source/target LLA, unknown types; mutated option areas incl. zero-length and truncated options; throttle open and closed; known and unknown senders; repeated senders) processed in place by a fresh handler, the frame buffer overwritten after every ProcessPacket as a receive loop does, the table read afterwards – learned table vs Lean model vs independent Go decoder.  nd.trace: real-time scenarios (StartHunt/StopHunt over up to 3 MACs with IPv4, global, link-local and address-less targets, Close, router advertisements, router advertisements after Close, pauses up to 2.3 s, 3.3 s tail; StopHunt / Close / StartHunt called while a forged NA is held inside the connection's WriteTo – a batch in flight) run in parallel, one handler each; the ordered log must be accepted by the Lean hunt machine (StopHunt / Close take the mutex the sending loop holds: an NA after their return has no interleaving); the oracle checks every NA (hunted – none after StopHunt/Close returned –, router learned, fields), the API results, list size and the cycle period"
+	c.Res.Rule = "nd.frame: raw frames (router advertisements with option lists from the independent builder, any hop limit, link-local / global / unspecified / multicast / loopback / site-local / IPv4-mapped sources, Ethernet source = a neighbour / the router / ourselves / a group address, payload length mismatch and trailing bytes, hop-by-hop header, other next headers, other ICMPv6 types, ICMPv6 carried by IPv4, ICMPv6 messages of 0..15 bytes, 802.1Q / 802.1ad tags, other EtherTypes, truncation at every length, bit flips, random bytes; throttle open and closed) through Session.Parse, the PayloadID dispatch and Handler6.ProcessPacket of a fresh handler – Parse result, returned error and router table vs the Lean composition processFrame vs an independent Go reading of the frame.  nd.ra: sequences of 1–3 router advertisements (random fixed part, option lists from the independent builder: prefix, MTU, RDNSS, DNSSL, route information, source/target LLA, unknown types; mutated option areas incl. zero-length and truncated options; throttle open and closed; known and unknown senders; repeated senders) processed in place by a fresh handler, the frame buffer overwritten after every ProcessPacket as a receive loop does, the table read afterwards – learned table vs Lean model vs independent Go decoder.  nd.trace: real-time scenarios (StartHunt/StopHunt over up to 3 MACs with IPv4, global, link-local and address-less targets, Close, router advertisements, router advertisements after Close, pauses up to 2.3 s, 3.3 s tail; StopHunt / Close / StartHunt called while a forged NA is held inside the connection's WriteTo – a batch in flight) run in parallel, one handler each; the ordered log must be accepted by the Lean hunt machine (StopHunt / Close take the mutex the sending loop holds: an NA after their return has no interleaving); the oracle checks every NA (hunted – none after StopHunt/Close returned –, router learned, fields), the API results, list size and the cycle period"
 	for _, l := range c.CorpusLines() {
 		add(c, "corpus", l)
 	}
@@ -886,6 +1092,10 @@ func Gen(c *core.Ctx) {
 			toks = append(toks, t.String())
 		}
 		add(c, "ra", "nd.ra "+strings.Join(toks, " "))
+	}
+	// raw frames through Parse + dispatch + ProcessPacket
+	for _, l := range genFrames(c) {
+		add(c, "frame", l)
 	}
 	// real-time scenarios, in parallel
 	fixed := []string{
@@ -930,3 +1140,20 @@ func Gen(c *core.Ctx) {
 }
 
 var Runner = core.Runner{Gen: Gen, Eval: Eval}
+
+// FrameRunner is the raw-frame function mode alone (Parse + dispatch + Handler6.ProcessPacket on any bytes);
+// C08 ("no input panics") runs it as one of its areas.
+var FrameRunner = core.Runner{
+	Gen: func(c *core.Ctx) {
+		c.Res.Rule = "nd.frame: raw frames through Session.Parse, the PayloadID dispatch and Handler6.ProcessPacket (see C14)"
+		for _, l := range genFrames(c) {
+			add(c, "nd-frame", l)
+		}
+	},
+	Eval: func(c *core.Ctx, line string) *core.Case {
+		if strings.HasPrefix(line, "nd.frame ") {
+			return evalFrame(c, line)
+		}
+		return nil
+	},
+}
